@@ -62,7 +62,7 @@ func init() {
 			c := m.C
 			s := &Seq{Len: ln, Max: max, At: func(i *smt.Term) *smt.Term { return c.Select(arr, i) }}
 			m.Assume(c.Cmp(smt.OULE, ln, c.BV(uint64(max), 64)))
-			m.nondet = append(m.nondet, nondetRec{tag: tag, kind: kind, seq: s, max: minI(max, 64)})
+			m.nondet = append(m.nondet, nondetRec{tag: tag, kind: kind, seq: s, max: minI(max, 128)})
 			return s
 		}
 	}
